@@ -568,6 +568,15 @@ def _field_effects(facts):
     return reads, direct_w
 
 
+def _tainted_fns(facts):
+    t = getattr(facts, "_c16_taint", None)
+    if t is None:
+        t = Taint(facts)
+        t.run()
+        facts._c16_taint = t
+    return t.tainted_fns
+
+
 def rule_r6(facts, rep, rid="C16-R6"):
     reads, direct_w = _field_effects(facts)
     n = 0
@@ -582,7 +591,10 @@ def rule_r6(facts, rep, rid="C16-R6"):
             arg = it["args"][0] if it.get("k") == "call" and it.get("args") else it
             tys = [arg.get("ty")] + [y.get("ty") for y in fb.walk(arg)] + [y.get("rty") for y in fb.walk(arg) if y.get("k") == "mcall"]
             if not any(is_hash_ty(t) for t in tys if t):
-                continue
+                # ... or a sequence that a fn of the workspace filled in hash order (`for key in graph.keys()` where keys() collects the map's keys into a Vec)
+                tf = _tainted_fns(facts)
+                if not any(y.get("k") in ("call", "mcall") and ((fb.rcallee(y) or "") in tf or (fb.callee(y) or "") in tf) for y in fb.walk(arg)):
+                    continue
             # writes in the loop body (directly, incl. closures) and reads through callees
             written = set()
             read = set()
